@@ -22,7 +22,10 @@ for name in names:
     meta.setdefault("origin", "independent sub-agent given only the property record and a scratch git worktree of /repo")
     meta.setdefault("confirmed_by", "tools/seed_verify.sh: patch applies to /repo HEAD in a scratch worktree, unedited suite 219 passed with it, demo.py exits 0 on /repo and non-zero on the patched tree")
     t0 = time.time()
-    p = subprocess.run([os.path.join(HERE, "tools", "seed_run.sh"), name], capture_output=True, text=True)
+    # "check_with": the change was asked for under one property but breaks a clause that another property states
+    # (e.g. a hard exit inside a block: asked for under C02, it is C03's "never from a hard exit")
+    run_prop = meta.get("check_with") or meta["property"]
+    p = subprocess.run([os.path.join(HERE, "tools", "seed_run.sh"), name, run_prop], capture_output=True, text=True)
     lines = [l for l in p.stdout.splitlines() if l.strip()]
     viol = [l for l in lines if l.startswith("VIOLATION")]
     concrete = [l for l in viol if "no-failing-input-found" not in l]
@@ -40,7 +43,7 @@ for name in names:
     if prev == "caught-after-strengthening" and status == "caught":
         status = prev
         result = meta.get("result", "") if meta.get("result", "").startswith("missed first") else result
-    meta.update(status=status, result=result, ran="tools/seed_run.sh %s (= RPFT_REPO=<scratch worktree with patch> ./check %s --tier quick)" % (name, meta["property"]),
+    meta.update(status=status, result=result, ran="tools/seed_run.sh %s %s (= RPFT_REPO=<scratch worktree with patch> ./check %s --tier quick)" % (name, run_prop, run_prop),
                 ran_at_verif_commit=head, wall_s=round(time.time() - t0))
     json.dump(meta, open(mp, "w"), indent=1)
     print(name, status, "|", result[:160], flush=True)
